@@ -49,6 +49,7 @@ func c01(c *core.Check) {
 	c01GridWidth(c)
 	c01FetchRecursion(c)
 	c01LoaderCycles(c)
+	c01BoundedRepeats(c)
 	c01OrderedSlices(c)
 
 	p := c.Prog
